@@ -6,8 +6,10 @@ package scen
 import (
 	"fmt"
 	"io"
+	"math/rand"
 	"sort"
 	"strings"
+	"sync"
 	"time"
 
 	commonmodel "github.com/prometheus/common/model"
@@ -158,6 +160,13 @@ type Fault struct {
 	Delay    time.Duration `json:"delay,omitempty"`
 }
 
+// YieldRule makes the dispatcher sleep (virtual time) at a verif yield point with some probability.
+type YieldRule struct {
+	Point string        `json:"point"`
+	Sleep time.Duration `json:"sleep"`
+	Prob  float64       `json:"prob"`
+}
+
 // Scenario is a complete case.
 type Scenario struct {
 	Seed       int64         `json:"seed"`
@@ -165,6 +174,7 @@ type Scenario struct {
 	Ops        []Op          `json:"ops"`
 	Faults     []Fault       `json:"faults,omitempty"`
 	Duration   time.Duration `json:"duration"`
+	Yields     []YieldRule   `json:"yields,omitempty"`
 	Probes     bool          `json:"probes"`
 	ProbeEvery time.Duration `json:"probe_every,omitempty"`
 
@@ -197,6 +207,10 @@ type Probe struct {
 	Alerts   []sim.GettableAlert
 	Groups   []sim.AlertGroup
 	Silences []sim.GettableSilence
+	// internal view of the dispatcher's group maps (hook H4)
+	Internal    []dispatch.VerifGroup
+	PerRouteLen []int64
+	TotalGroups int32
 }
 
 // Result is everything the checkers need.
@@ -293,8 +307,27 @@ func Run(s *Scenario, dir string) *Result {
 		}
 		return sim.Outcome{Kind: f.Kind, Delay: f.Delay}
 	}
+	var ymu sync.Mutex
+	yr := rand.New(rand.NewSource(s.Seed + 77))
+	var yield func(point string, l model.Labels)
+	if len(s.Yields) > 0 {
+		yield = func(point string, l model.Labels) {
+			for _, y := range s.Yields {
+				if y.Point != point {
+					continue
+				}
+				ymu.Lock()
+				hit := yr.Float64() < y.Prob
+				ymu.Unlock()
+				if hit {
+					res.Log.Add(sim.Event{T: time.Now(), Kind: "yield", Note: point})
+					time.Sleep(y.Sleep)
+				}
+			}
+		}
+	}
 	mkOpts := func(c *Config, keep bool) sim.Options {
-		return sim.Options{Name: "am0", ConfigYAML: c.YAML(), Dir: dir, KeepData: keep, Log: res.Log, Script: script, Debug: DebugWriter,
+		return sim.Options{Yield: yield, Name: "am0", ConfigYAML: c.YAML(), Dir: dir, KeepData: keep, Log: res.Log, Script: script, Debug: DebugWriter,
 			Retention: s.Retention, MaintenanceInterval: s.MaintenanceInterval, AlertGCInterval: s.AlertGCInterval,
 			DispatchMaintenanceInterval: s.DispatchMaint, PerAlertNameLimit: s.PerAlertNameLimit}
 	}
@@ -335,6 +368,9 @@ func Run(s *Scenario, dir string) *Result {
 		_, p.Alerts = in.GetAlerts("")
 		_, p.Groups = in.GetGroups("")
 		_, p.Silences = in.GetSilences()
+		if d := in.VI.Dispatcher(); d != nil {
+			p.Internal, p.PerRouteLen, p.TotalGroups = d.VerifGroups()
+		}
 		res.Probes = append(res.Probes, p)
 	}
 
